@@ -7,10 +7,10 @@ PROP = {
     'props_file': 'props/C17.v',
     'checker_vo': 'bgp/BgpCheck.vo',
     'scenario': 'c17',
-    'evals': ['agrees', 'c17_ok'],
+    'evals': ['agrees', 'c17_ok', 'ok_suggest_preserves'],
     'extra': {'quick': {'cases': 1000}, 'thorough': {'cases': 20000}},
     'replay_header': B_HEADER,
-    'replay_footer': "Eval vm_compute in (failing agrees base_index cases).\nEval vm_compute in (failing c17_ok base_index cases).",
+    'replay_footer': "Eval vm_compute in (failing agrees base_index cases).\nEval vm_compute in (failing c17_ok base_index cases).\nEval vm_compute in (failing ok_suggest_preserves base_index cases).",
     'stats_keys': ['cases', 'report_entries', 'lookup', 'candidate_findings', 'witness_replays'],
     'assumptions': [
         'prefixes are well formed (length within the family, host bits zero): guaranteed by the constructors of Ipv4Prefix/Ipv6Prefix/TypedPrefix and re-checked on every generated case (wf_case)',
